@@ -108,6 +108,10 @@ Definition peer_infos (self : N) (ps : pstore) (peers : list N) : list pinfo :=
 Definition save_lines (infos : list pinfo) : list line :=
   flat_map (fun pi => map (fun t => LText slash (Some (PP2p (fst pi) (Some t)))) (snd pi)) infos.
 
+(* the file after SavePeerstore when it held `prev` before: os.Create truncates, nothing of the previous content is
+   left (the file is rewritten at every shutdown, usually over a longer one) *)
+Definition save_onto (prev : list line) (infos : list pinfo) : list line := save_lines infos.
+
 (* the addresses of `infos` with their /p2p/<peer> suffix, in order *)
 Definition loaded_of (infos : list pinfo) : list (option paddr) :=
   flat_map (fun pi => map (fun t => Some (PP2p (fst pi) (Some t))) (snd pi)) infos.
